@@ -142,6 +142,12 @@ Hashable(v) == v.t \in {"none", "bool", "dec", "int", "float", "str", "lambda", 
                \/ (v.t = "tuple" /\ \A i \in 1..Len(v.items) : v.items[i].t \in {"none", "bool", "dec", "int", "float", "str"})
 
 \* a in b
+\* position of the int key of a host dict that a number equals (and hashes like); 0 if none
+HasIntKeys(ps) == \E i \in 1..Len(ps) : IsIntKey(ps[i][1])
+DictFindNum(h, ps, a) ==
+    IF a.t \notin {"dec", "int", "bool"} THEN 0
+    ELSE LET S == {i \in 1..Len(ps) : IsIntKey(ps[i][1]) /\ ValEq(h, a, KeyVal(ps[i][1]), Fuel) = T3} IN
+         IF S = {} THEN 0 ELSE CHOOSE i \in S : TRUE
 PyContains(h, a, b) ==
     CASE b.t = "str" -> IF a.t = "str" THEN Bool(Len(a.s) = 0 \/ FindFrom(b.s, a.s, 1) # 0)
                         ELSE IF a.t = "opaque" THEN Unspec("opaque") ELSE TypeErr
@@ -149,7 +155,9 @@ PyContains(h, a, b) ==
       [] b.t = "tuple" -> LET i == AnyEq(h, b.items, a, 1) IN IF i = -1 THEN Unspec("eq") ELSE Bool(i # 0)
       [] b.t = "dict" -> IF a.t = "str" THEN Bool(DHas(Items(h, b), a.s))
                          ELSE IF a.t = "opaque" THEN Unspec("opaque")
-                         ELSE IF Hashable(a) THEN Bool(FALSE) ELSE TypeErr
+                         ELSE IF a.t = "float" /\ HasIntKeys(Items(h, b)) THEN Unspec("float against int keys")
+                         ELSE IF Hashable(a) THEN Bool(DictFindNum(h, Items(h, b), a) # 0)
+                         ELSE TypeErr
       [] b.t = "opaque" -> Unspec("opaque")
       [] OTHER -> TypeErr
 
@@ -191,7 +199,7 @@ IterItems(h, v) == \* the element sequence Python iterates over (only for Iterab
     CASE v.t = "list" -> Items(h, v)
       [] v.t = "tuple" -> v.items
       [] v.t = "str" -> [i \in 1..Len(v.s) |-> Str(<<v.s[i]>>)]
-      [] v.t = "dict" -> [i \in 1..LenOf(h, v) |-> Str(Items(h, v)[i][1])]
+      [] v.t = "dict" -> [i \in 1..LenOf(h, v) |-> KeyVal(Items(h, v)[i][1])]
       [] OTHER -> <<>>
 
 InplaceApply(h, op, cur, v) ==
@@ -594,7 +602,7 @@ CallAtomic(h, name, args) ==
                  vs == StrAll(h, [i \in 1..LenOf(h, a1) |-> Items(h, a1)[i][2]], 1, <<>>) IN
              IF sep.t # "str" THEN R(h, OtherErr("AttributeError"))
              ELSE IF vs = BadStrs THEN R(h, Unspec("str() of element"))
-             ELSE R(h, Str(JoinCps([i \in 1..Len(vs) |-> Items(h, a1)[i][1] \o cColonSp \o vs[i]], sep.s, 1))))
+             ELSE R(h, Str(JoinCps([i \in 1..Len(vs) |-> KeyText(Items(h, a1)[i][1]) \o cColonSp \o vs[i]], sep.s, 1))))
         ELSE IF a1.t = "list" THEN
             (LET sep == IF n = 2 THEN a2 ELSE Str(cCommaSp)
                  vs == StrAll(h, Items(h, a1), 1, <<>>) IN
@@ -611,9 +619,9 @@ CallAtomic(h, name, args) ==
         IF n # 1 THEN R(h, ArityErr)
         ELSE IF a1.t # "dict" THEN R(h, OtherErr("AttributeError"))
         ELSE LET ps == Items(h, a1)
-                 xs == [i \in 1..Len(ps) |-> CASE name = "keys" -> Str(ps[i][1])
+                 xs == [i \in 1..Len(ps) |-> CASE name = "keys" -> KeyVal(ps[i][1])
                                                [] name = "values" -> ps[i][2]
-                                               [] OTHER -> Tuple(<<Str(ps[i][1]), ps[i][2]>>)]
+                                               [] OTHER -> Tuple(<<KeyVal(ps[i][1]), ps[i][2]>>)]
                  al == Alloc(h, NewList(xs)) IN R(al.h, ListRef(al.a))
     [] name = "sum" ->
         IF n # 1 THEN R(h, ArityErr)
@@ -694,7 +702,11 @@ CallAtomic(h, name, args) ==
              ELSE R([h EXCEPT ![a1.addr].items = SeqRemoveAt(@, i)], None))
         ELSE IF a1.t = "dict" THEN
             (IF a2.t = "str" THEN (IF DHas(Items(h, a1), a2.s) THEN R([h EXCEPT ![a1.addr].items = DDel(@, a2.s)], None) ELSE R(h, None))
-             ELSE IF Hashable(a2) THEN R(h, None) ELSE R(h, TypeErr))
+             ELSE IF a2.t = "float" /\ HasIntKeys(Items(h, a1)) THEN R(h, Unspec("float against int keys"))
+             ELSE IF Hashable(a2)
+             THEN (LET i == DictFindNum(h, Items(h, a1), a2) IN
+                   IF i = 0 THEN R(h, None) ELSE R([h EXCEPT ![a1.addr].items = SeqRemoveAt(@, i)], None))
+             ELSE R(h, TypeErr))
         ELSE IF a1.t = "str" THEN R(h, IF a2.t = "str" THEN (IF Len(a2.s) = 0 \/ FindFrom(a1.s, a2.s, 1) # 0 THEN TypeErr ELSE None) ELSE TypeErr)
         ELSE IF a1.t = "tuple" THEN
             (LET i == AnyEq(h, a1.items, a2, 1) IN
